@@ -3,6 +3,9 @@
 // Contracts for package inode, checked by /verif/govc (comment-only file).
 package inode
 
+// The block-pointer array belongs to its inode alone.
+//@ owned inode.Inode.blks
+
 // Ownership (C14-P1/P2, C03-L1): every on-disk field of a cached inode, its
 // block array and its name cache are touched only under the inode's lock.
 //@ protected inode.Inode.Kind by held[this.Inum] @C14 @C03
@@ -18,17 +21,17 @@ package inode
 
 // Write-through typestate (C10-S1): a store to an on-disk field makes the
 // cached inode differ from the transaction until the next WriteInode.
-//@ onwrite inode.Inode.Kind: dirtyinum = store(dirtyinum, this.Inum, true)
-//@ onwrite inode.Inode.Nlink: dirtyinum = store(dirtyinum, this.Inum, true)
-//@ onwrite inode.Inode.Gen: dirtyinum = store(dirtyinum, this.Inum, true)
-//@ onwrite inode.Inode.Size: dirtyinum = store(dirtyinum, this.Inum, true)
-//@ onwrite inode.Inode.ShrinkSize: dirtyinum = store(dirtyinum, this.Inum, true)
-//@ onwrite inode.Inode.Atime: dirtyinum = store(dirtyinum, this.Inum, true)
-//@ onwrite inode.Inode.Mtime: dirtyinum = store(dirtyinum, this.Inum, true)
-//@ onwrite inode.Inode.blks[*]: dirtyinum = store(dirtyinum, this.Inum, true)
+//@ onwrite inode.Inode.Kind: dirtyinum = ite(changed, store(dirtyinum, this.Inum, true), dirtyinum)
+//@ onwrite inode.Inode.Nlink: dirtyinum = ite(changed, store(dirtyinum, this.Inum, true), dirtyinum)
+//@ onwrite inode.Inode.Gen: dirtyinum = ite(changed, store(dirtyinum, this.Inum, true), dirtyinum)
+//@ onwrite inode.Inode.Size: dirtyinum = ite(changed, store(dirtyinum, this.Inum, true), dirtyinum)
+//@ onwrite inode.Inode.ShrinkSize: dirtyinum = ite(changed, store(dirtyinum, this.Inum, true), dirtyinum)
+//@ onwrite inode.Inode.Atime: dirtyinum = ite(changed, store(dirtyinum, this.Inum, true), dirtyinum)
+//@ onwrite inode.Inode.Mtime: dirtyinum = ite(changed, store(dirtyinum, this.Inum, true), dirtyinum)
+//@ onwrite inode.Inode.blks[*]: dirtyinum = ite(changed, store(dirtyinum, this.Inum, true), dirtyinum)
 
 // I1 (C04): every block pointer kept in an inode is null or in the data region.
-//@ specfunc blksValid(ip *Inode) = len(ip.blks) == 10 && (forall k uint64 :: k < 10 ==> ip.blks[k] == 0 || validBlk(ip.blks[k]))
+//@ predicate blksValid(ip *Inode) = len(ip.blks) == 10 && (forall k uint64 :: k < 10 ==> ip.blks[k] == 0 || validBlk(ip.blks[k]))
 //@ specfunc inodeInv(ip *Inode) = ip != nil && ip.Inum < 32768 && blksValid(ip)
 //@ specfunc locked(ip *Inode) = ip != nil && held[ip.Inum]
 
@@ -91,3 +94,56 @@ package inode
 //@   ensures [S2-decode-blks] len(result.blks) == 10 && (forall k uint64 :: k < 10 ==> result.blks[k] == le64(buf.Data, 48 + 8*k)) @C10 @C11
 //@   ensures result.Dcache == nil
 //@   assumes [I1-disk] forall k uint64 :: k < 10 ==> result.blks[k] == 0 || validBlk(result.blks[k])
+
+// Transaction-side preconditions shared by the inode operations.
+//@ specfunc txnOK(atxn *alloctxn.AllocTxn) = atxnInv(atxn) && listsValid(atxn) && lastst == 0
+
+//@ spec (*Inode).WriteInode
+//@   props C10 C01 C04 C11 C14
+//@   requires locked(ip) && atxnInv(atxn) && lastst == 0
+//@   requires [I1-store] inodeInv(ip) @C04 @C11
+//@   allocates []uint8, marshal.Enc, cell:uint64
+//@   modifies dirtyinum
+//@   ghostexit dirtyinum = store(dirtyinum, ip.Inum, false)
+//@   ensures [S1-synced] !dirtyinum[ip.Inum] && (forall j uint64 :: j != ip.Inum ==> dirtyinum[j] == old(dirtyinum)[j]) @C10
+
+//@ spec (*Inode).FreeInode
+//@   props C08 C05 C10 C11 C14
+//@   requires locked(ip) && inodeInv(ip) && txnOK(atxn)
+//@   requires [valid] validInum(ip.Inum) @C04 @C11
+//@   allocates []uint8, marshal.Enc, cell:uint64
+//@   modifies ip.Kind, ip.Gen, dirtyinum, atxn.freeInums, atxn.freeInums[*]
+//@   ensures [H2-genbump] ip.Gen == old(ip.Gen) + 1 && ip.Kind == 0 @C08
+//@   ensures [S1-synced] !dirtyinum[ip.Inum] && (forall j uint64 :: j != ip.Inum ==> dirtyinum[j] == old(dirtyinum)[j]) @C10
+//@   ensures listsValid(atxn) && listsStable(atxn)
+//@   ensures [F1-freed] len(atxn.freeInums) == old(len(atxn.freeInums)) + 1 && atxn.freeInums[old(len(atxn.freeInums))] == ip.Inum @C05
+
+// Fn4 (C02/C19): the block map. indbmap descends `level` levels of indirect
+// blocks; every pointer it follows or stores is null or in the data region
+// (I1), new blocks come from AllocBlock only (Z2), and it terminates.
+//@ specfunc inRange(level uint64, off uint64) = (level == 0 && off < 1) || (level == 1 && off < 512) || (level == 2 && off < 262144)
+//@ spec (*Inode).indbmap
+//@   props C04 C02 C11 C12 C19 C06
+//@   requires ip != nil && txnOK(atxn)
+//@   requires [I1-root] root_ == 0 || validBlk(root_) @C04
+//@   requires [Fn4-range] inRange(level, off) @C02 @C19 @C11
+//@   preserves [allocInv] allocInv() @C15 @C04
+//@   decreases level
+//@   allocates buf.Buf, marshal.Enc, marshal.Dec, cell:uint64
+//@   modifies abits, atxn.allocBnums, atxn.allocBnums[*], []uint8, buf.Buf.dirty
+//@   ensures [I1-result] (result0 == 0 || validBlk(result0)) && (result1 == 0 || validBlk(result1)) @C04 @C11
+//@   ensures [Fn4-root] root_ != 0 ==> result1 == root_ @C02
+//@   ensures listsValid(atxn) && listsStable(atxn)
+
+//@ spec (*Inode).bmap
+//@   props C04 C02 C10 C11 C12 C19
+//@   requires locked(ip) && inodeInv(ip) && txnOK(atxn)
+//@   requires [Q3-range] bn < 8 + 512 + 512*512 @C19 @C11
+//@   preserves [allocInv] allocInv() @C15 @C04
+//@   allocates buf.Buf, marshal.Enc, marshal.Dec, cell:uint64
+//@   modifies ip.blks[*], dirtyinum, abits, atxn.allocBnums, atxn.allocBnums[*], []uint8, buf.Buf.dirty
+//@   ensures [I1-result] result0 == 0 || validBlk(result0) @C04 @C11
+//@   ensures [I1-inode] inodeInv(ip) @C04
+//@   ensures [lists-valid] listsValid(atxn) && listsStable(atxn)
+//@   ensures [S1-noalloc] !result1 ==> dirtyinum == old(dirtyinum) @C10
+//@   ensures forall j uint64 :: j != ip.Inum ==> dirtyinum[j] == old(dirtyinum)[j]
